@@ -257,6 +257,12 @@ def replay(path):
     print(json.dumps(d, indent=1)[:2500])
     if 'code' not in r:
         return 0
+    if r.get('check') == 'c02_sample':     # sample-recovery / MPS decode cases
+        from harness import c02_sample
+        return c02_sample.replay_dict(r)
+    if r.get('check') == 'c02_dense':      # a syndrome that was handed to decode directly
+        from harness import c02_dense
+        return c02_dense.replay_one(r)
     cs = (r['code'][0], tuple(r['code'][1]))
     ds = (r['decoder'][0], tuple(r['decoder'][1]))
     ems = (r['error_model'][0], tuple(tuple(x) if isinstance(x, list) else x for x in r['error_model'][1]))
@@ -285,3 +291,31 @@ def run(ctx):   # noqa: F811
     _run_with_extra(ctx)
     from harness import c02_mwpm
     c02_mwpm.run(ctx)
+
+
+_run_with_mwpm = run
+
+
+def run(ctx):   # noqa: F811
+    """... then syndromes with many defects in structured arrangements on larger lattices, decoded directly
+    (harness/c02_dense.py: matching-family decoders; graph / node set / recovery against MwpmGraph.v, PlanarMwpm.v, ToricMwpm.v)"""
+    _run_with_mwpm(ctx)
+    from harness import c02_dense
+    c02_dense.run(ctx)
+    ctx.rule += ('; plus (c02_dense) matching-family decoders on lattices up to 16x16 (thorough 18x18) handed VALID syndromes directly: '
+                 '2-4 separated clusters of 9..15 defects, dense random, far pairs, full lines, all-ones; plus (c02_extra.run_grid) both '
+                 'symmetry decoders on the grid eta in 1e-300..1e300 x error_probability in 5e-324..1-2^-53')
+
+
+_run_with_dense = run
+
+
+def run(ctx):   # noqa: F811
+    """... then the tensor-network decoders' recovery construction (sample recovery xor a logical class) against
+    Decoders/SampleRecovery.v / SampleRecoveryColor.v (engine build/qmodel_samp; harness/c02_sample.py)"""
+    _run_with_dense(ctx)
+    from harness import c02_sample
+    c02_sample.run_extra(ctx)
+    ctx.rule += ('; plus (c02_sample) sample_recovery of the five tensor-network decoder classes on every syndrome of small '
+                 'codes and unit / dense / sparse / reachable syndromes of larger ones, and decode() = sample xor one of the '
+                 'four logical classes')
